@@ -79,6 +79,8 @@ def truth_table_sweep(p, lam, seed, rnd, kinds=None):
         K, cb = KC[g]
         p.load(0, x); p.load(1, y); p.steer(0, 0); p.steer(1, (-K * MU // cb) % (1 << 32)); p.gate(g, 2, 0, 1)
     p.load(0, 1); p.load(1, 0); p.load(3, 1); p.steer(0, 0); p.steer(1, MU); p.steer(3, MU); p.gate("MUX", 2, 0, 1, 3)
+    # ... and so that the body lies exactly half-way between two multiples of 1/2N (a rounding tie of the modulus switch: low 21 bits = 2^20 for N = 1024)
+    tie_inputs(p, rnd)
     # aliasing: result is one of the inputs, inputs equal
     for g in BIN:
         x, y = rnd.randint(0, 1), rnd.randint(0, 1)
@@ -88,6 +90,18 @@ def truth_table_sweep(p, lam, seed, rnd, kinds=None):
     p.load(0, 1); p.load(1, 0); p.load(2, 1)
     p.gate("MUX", 0, 0, 1, 2); p.load(0, 1); p.gate("MUX", 1, 0, 1, 2); p.load(1, 0); p.gate("MUX", 2, 0, 1, 2); p.gate("MUX", 3, 0, 0, 0)
     p.end()
+
+
+def tie_inputs(p, rnd):
+    """every binary gate and MUX on inputs steered (same phases) so that the body of the combination that is bootstrapped is a rounding tie of modSwitchFromTorus32(., 2N)"""
+    MU = 1 << 29
+    KC = {"NAND": (1, -1), "OR": (1, 1), "AND": (-1, 1), "XOR": (2, 2), "XNOR": (-2, -2), "NOR": (-1, -1), "ANDNY": (-1, 1), "ANDYN": (-1, -1), "ORNY": (1, 1), "ORYN": (1, -1)}     # (K, CB) of spec/Gates.tla
+    for tie in (1 << 20, 3 << 20, (1 << 32) - (1 << 20)):
+        for g in BIN:
+            x, y = rnd.randint(0, 1), rnd.randint(0, 1)
+            K, cb = KC[g]
+            p.load(0, x); p.load(1, y); p.steer(0, 0); p.steer(1, ((-K * MU + tie) // cb) % (1 << 32)); p.gate(g, 2, 0, 1)
+        p.load(0, 1); p.load(1, 0); p.load(3, 1); p.steer(0, 0); p.steer(1, (MU + tie) % (1 << 32)); p.steer(3, (MU + tie) % (1 << 32)); p.gate("MUX", 2, 0, 1, 3)
 
 
 def random_program(p, lam, seed, rnd, R, n, loads=True):
